@@ -397,11 +397,60 @@ func (c *Ctx) CheckProperty(id string) (*Result, error) {
 // (assume clauses, ensures marked "assumed"), as reported by the generator while encoding.
 func withAssumedNotes(base []string, notes []string) []string {
 	out := append([]string{}, base...)
-	seen := map[string]bool{}
+	// identical clauses assumed by many functions (the fntype contract checked for every implementation) are
+	// reported once, with the number of functions
+	type grp struct {
+		head, clause string
+		fns          []string
+	}
+	var order []string
+	groups := map[string]*grp{}
 	for _, n := range notes {
-		if i := strings.Index(n, "ASSUMED, unchecked"); i >= 0 && !seen[n[i:]] {
-			seen[n[i:]] = true
-			out = append(out, n[i:])
+		i := strings.Index(n, "ASSUMED, unchecked")
+		if i < 0 {
+			continue
+		}
+		t := n[i:]
+		head, fn, clause := t, "", ""
+		for _, mark := range []string{"at entry of ", "postcondition of "} {
+			if k := strings.Index(t, mark); k >= 0 {
+				rest := t[k+len(mark):]
+				if c := strings.Index(rest, ": "); c >= 0 {
+					head, fn, clause = t[:k+len(mark)], rest[:c], rest[c+2:]
+					if sp := strings.Index(fn, " exported"); sp >= 0 {
+						clause = fn[sp+1:] + ": " + clause
+						fn = fn[:sp]
+					}
+				}
+				break
+			}
+		}
+		key := head + "|" + clause
+		g := groups[key]
+		if g == nil {
+			g = &grp{head: head, clause: clause}
+			groups[key] = g
+			order = append(order, key)
+		}
+		dup := false
+		for _, f := range g.fns {
+			if f == fn {
+				dup = true
+			}
+		}
+		if !dup {
+			g.fns = append(g.fns, fn)
+		}
+	}
+	for _, k := range order {
+		g := groups[k]
+		switch {
+		case g.clause == "":
+			out = append(out, g.head)
+		case len(g.fns) <= 3:
+			out = append(out, g.head+strings.Join(g.fns, ", ")+": "+g.clause)
+		default:
+			out = append(out, fmt.Sprintf("%s%d functions (%s, ...): %s", g.head, len(g.fns), strings.Join(g.fns[:3], ", "), g.clause))
 		}
 	}
 	return out
